@@ -20,6 +20,7 @@ limitations under the License.
 package client
 
 import (
+	"bytes"
 	"context"
 	"crypto/ecdsa"
 	"crypto/sha256"
@@ -1087,6 +1088,34 @@ func (c *immuClient) VerifiedGetAtRevision(ctx context.Context, key []byte, rev 
 	return c.VerifiedGet(ctx, key, AtRevision(rev))
 }
 
+// validVerifiableTx reports whether a server response carries every part the
+// verification reads; a malformed response must be rejected, not dereferenced.
+func validVerifiableTx(vtx *schema.VerifiableTx) bool {
+	if vtx == nil || vtx.Tx == nil || vtx.Tx.Header == nil || vtx.DualProof == nil ||
+		vtx.DualProof.SourceTxHeader == nil || vtx.DualProof.TargetTxHeader == nil ||
+		vtx.DualProof.LinearProof == nil {
+		return false
+	}
+
+	for _, hdr := range []*schema.TxHeader{vtx.Tx.Header, vtx.DualProof.SourceTxHeader, vtx.DualProof.TargetTxHeader} {
+		if hdr.Version < 0 || int(hdr.Version) > store.MaxTxHeaderVersion {
+			return false
+		}
+	}
+
+	if int(vtx.Tx.Header.Nentries) != len(vtx.Tx.Entries) {
+		return false
+	}
+
+	for _, e := range vtx.Tx.Entries {
+		if e == nil || len(e.Key) == 0 {
+			return false
+		}
+	}
+
+	return true
+}
+
 func (c *immuClient) verifyDualProof(
 	ctx context.Context,
 	dualProof *store.DualProof,
@@ -1142,6 +1171,10 @@ func (c *immuClient) verifiedGet(ctx context.Context, kReq *schema.KeyRequest) (
 		return nil, err
 	}
 
+	if vEntry == nil || vEntry.Entry == nil || vEntry.InclusionProof == nil || !validVerifiableTx(vEntry.VerifiableTx) {
+		return nil, store.ErrCorruptedData
+	}
+
 	entrySpecDigest, err := store.EntrySpecDigestFor(int(vEntry.VerifiableTx.Tx.Header.Version))
 	if err != nil {
 		return nil, err
@@ -1159,13 +1192,24 @@ func (c *immuClient) verifiedGet(ctx context.Context, kReq *schema.KeyRequest) (
 	var e *store.EntrySpec
 
 	if vEntry.Entry.ReferencedBy == nil {
+		// the proof is about the requested key at the requested tx: the entry returned to the caller must say the same
+		if !bytes.Equal(vEntry.Entry.Key, kReq.Key) {
+			return nil, store.ErrCorruptedData
+		}
+
 		if kReq.AtTx == 0 {
 			vTx = vEntry.Entry.Tx
+		} else if vEntry.Entry.Tx != kReq.AtTx {
+			return nil, store.ErrCorruptedData
 		}
 
 		e = database.EncodeEntrySpec(kReq.Key, schema.KVMetadataFromProto(vEntry.Entry.Metadata), vEntry.Entry.Value)
 	} else {
 		ref := vEntry.Entry.ReferencedBy
+
+		if !bytes.Equal(ref.Key, kReq.Key) {
+			return nil, store.ErrCorruptedData
+		}
 
 		if kReq.AtTx == 0 {
 			vTx = ref.Tx
@@ -1334,7 +1378,7 @@ func (c *immuClient) VerifiedSet(ctx context.Context, key []byte, value []byte) 
 		return nil, err
 	}
 
-	if verifiableTx.Tx.Header.Nentries != 1 || len(verifiableTx.Tx.Entries) != 1 {
+	if !validVerifiableTx(verifiableTx) || verifiableTx.Tx.Header.Nentries != 1 {
 		return nil, store.ErrCorruptedData
 	}
 
@@ -1363,7 +1407,8 @@ func (c *immuClient) VerifiedSet(ctx context.Context, key []byte, value []byte) 
 		return nil, store.ErrCorruptedData
 	}
 
-	if tx.Header().Eh != schema.DigestFromProto(verifiableTx.DualProof.TargetTxHeader.EH) {
+	if tx.Header().Eh != schema.DigestFromProto(verifiableTx.DualProof.TargetTxHeader.EH) ||
+		tx.Header().Eh != schema.DigestFromProto(verifiableTx.Tx.Header.EH) {
 		return nil, store.ErrCorruptedData
 	}
 
@@ -1551,21 +1596,35 @@ func (c *immuClient) VerifiedTxByID(ctx context.Context, tx uint64) (*schema.Tx,
 		return nil, err
 	}
 
+	if !validVerifiableTx(vTx) {
+		return nil, store.ErrCorruptedData
+	}
+
 	dualProof := schema.DualProofFromProto(vTx.DualProof)
 
 	var sourceID, targetID uint64
 	var sourceAlh, targetAlh [sha256.Size]byte
+	var provenAlh [sha256.Size]byte
 
 	if state.TxId <= tx {
 		sourceID = state.TxId
 		sourceAlh = schema.DigestFromProto(state.TxHash)
 		targetID = tx
 		targetAlh = dualProof.TargetTxHeader.Alh()
+		provenAlh = targetAlh
 	} else {
 		sourceID = tx
 		sourceAlh = dualProof.SourceTxHeader.Alh()
 		targetID = state.TxId
 		targetAlh = schema.DigestFromProto(state.TxHash)
+		provenAlh = sourceAlh
+	}
+
+	// the returned transaction must be the proven one: its header hashes to the
+	// proven alh and its entries hash to the header's Eh
+	retHdr := schema.TxHeaderFromProto(vTx.Tx.Header)
+	if retHdr.ID != tx || retHdr.Alh() != provenAlh || schema.TxFromProto(vTx.Tx).Header().Eh != retHdr.Eh {
+		return nil, store.ErrCorruptedData
 	}
 
 	if state.TxId > 0 {
@@ -1713,7 +1772,7 @@ func (c *immuClient) VerifiedSetReferenceAt(ctx context.Context, key []byte, ref
 		return nil, err
 	}
 
-	if verifiableTx.Tx.Header.Nentries != 1 {
+	if !validVerifiableTx(verifiableTx) || verifiableTx.Tx.Header.Nentries != 1 {
 		return nil, store.ErrCorruptedData
 	}
 
@@ -1736,7 +1795,8 @@ func (c *immuClient) VerifiedSetReferenceAt(ctx context.Context, key []byte, ref
 		return nil, store.ErrCorruptedData
 	}
 
-	if tx.Header().Eh != schema.DigestFromProto(verifiableTx.DualProof.TargetTxHeader.EH) {
+	if tx.Header().Eh != schema.DigestFromProto(verifiableTx.DualProof.TargetTxHeader.EH) ||
+		tx.Header().Eh != schema.DigestFromProto(verifiableTx.Tx.Header.EH) {
 		return nil, store.ErrCorruptedData
 	}
 
@@ -1879,7 +1939,7 @@ func (c *immuClient) VerifiedZAddAt(ctx context.Context, set []byte, score float
 		return nil, err
 	}
 
-	if vtx.Tx.Header.Nentries != 1 {
+	if !validVerifiableTx(vtx) || vtx.Tx.Header.Nentries != 1 {
 		return nil, store.ErrCorruptedData
 	}
 
@@ -1906,7 +1966,8 @@ func (c *immuClient) VerifiedZAddAt(ctx context.Context, set []byte, score float
 		return nil, store.ErrCorruptedData
 	}
 
-	if tx.Header().Eh != schema.DigestFromProto(vtx.DualProof.TargetTxHeader.EH) {
+	if tx.Header().Eh != schema.DigestFromProto(vtx.DualProof.TargetTxHeader.EH) ||
+		tx.Header().Eh != schema.DigestFromProto(vtx.Tx.Header.EH) {
 		return nil, store.ErrCorruptedData
 	}
 
